@@ -84,7 +84,7 @@ FAMILIES = {
     # a cheap lot (1 a share) next to dear ones and a large capital return: per-lot apportionment by share count
     'events_cheap_q': dict(cfg=dict(dayset=3, buy=(0, 1, 2), sell=(0, 1, 2), events=(5, 6), maxevents=1, grid=2, maxcells=5, cheap=1),
                            variants='none', bases=1, obs=True),
-    'events_t': dict(cfg=dict(dayset=1, buy=(0, 1, 2), sell=(0, 1), events=(1, 2, 3, 4, 5), maxevents=2, grid=2, maxcells=4),
+    'events_t': dict(cfg=dict(dayset=3, buy=(0, 1, 2), sell=(0, 1), events=(1, 2, 3, 4, 5), maxevents=2, grid=2, maxcells=4),
                      variants='dividends', bases=1, obs=True),
     'events_split_t': dict(cfg=dict(dayset=3, buy=(0, 1, 2), sell=(0, 1), events=(1, 2, 3), maxevents=1, grid=2,
                                     splits=(1, 3), maxsplits=1, maxcells=4, timings=BOTH), variants='none', bases=1, obs=True),
